@@ -38,6 +38,8 @@ def classify_raise(prog, stage: str, exc: BaseException) -> str:
                 t = prog["nodes"][n["ins"][1][0]]["ty"][n["ins"][1][1]]
                 if t[0] == "bool" and t[1] == [] and not t[2]:
                     return "construct-raises:InferenceError:loop-scalar-cond"
+        if prog.get("opset", 17) >= 18 and any(n["op"] == "Split" and n["ins"][1] is not None for n in prog["nodes"]):
+            return "construct-raises:InferenceError:split18-explicit-sizes"
     return f"{stage}-raises:{cls}"
 
 
@@ -168,6 +170,19 @@ LOOP_SCALAR_COND = {
 }
 
 
+SPLIT18 = {
+    # y = Split(x, sizes = [1, 2])[1] at opset 18
+    "nodes": [
+        {"op": "arg", "ins": [], "subs": [], "attrs": {"role": "main"}, "ty": [["i64", [3], False]]},
+        {"op": "Constant", "ins": [], "subs": [], "attrs": {"value": [1, 2], "uid": 1}, "ty": [["i64", [2], False]]},
+        {"op": "Split", "ins": [[0, 0], [1, 0]], "subs": [], "attrs": {"axis": 0, "outputs": 2},
+         "ty": [["i64", [1], False], ["i64", [2], False]]},
+    ],
+    "outputs": [[2, 1]],
+    "opset": 18,
+}
+
+
 # ------------------------------------------------------------------------------------- the check
 def run(ck: core.Check):
     ck.lean(["SpoxModel.Props.C01"], audit="SpoxModel.Audit.C01")
@@ -184,11 +199,24 @@ def run(ck: core.Check):
     programs: list[tuple[dict, str]] = []
     for prog, tag in L.skeleton_programs(skel_uses):
         programs.append((prog, "skeleton:" + tag))
+    for prog, tag in L.skeleton2_programs(ck.pick(2, 4)):
+        programs.append((prog, "skeleton2:" + tag))
     n_skel = len(programs)
     for i in range(n_random):
         size = rng.choice([8, 12, 16, 20, 26, 32, 40])
         programs.append((L.gen_program(random.Random(rng.getrandbits(48)), size=size, max_depth=rng.choice([2, 3, 3, 4])), "random"))
 
+    # one opset per program: 17 / 18 always; 19-21 only without Loop (there Loop outputs have no known
+    # rank, so the program falls outside the property's premise)
+    hist_opset = collections.Counter()
+    for prog, _ in programs:
+        has_loop = any(n["op"] == "Loop" for n in prog["nodes"])
+        # (a Split with explicit sizes cannot be written at opset >= 18: listed finding split18-explicit-sizes)
+        if any(n["op"] == "Split" and n["ins"][1] is not None for n in prog["nodes"]):
+            prog["opset"] = 17
+        else:
+            prog["opset"] = rng.choice([17, 17, 18] if has_loop else [17, 18, 19, 20, 21])
+        hist_opset[prog["opset"]] += 1
     hist_ops = collections.Counter()
     hist_depth = collections.Counter()
     hist_style = collections.Counter()
@@ -342,6 +370,17 @@ def run(ck: core.Check):
         ck.failure(kf["fail"][0], kf["fail"][1] + " [fixed probe: Loop with a rank-0 initial condition]",
                    case_doc(LOOP_SCALAR_COND, "lazy", 1, [L.random_binding(LOOP_SCALAR_COND, random.Random(5))]))
 
+    try:
+        kb = [L.random_binding(SPLIT18, random.Random(5))]
+        kf2 = run_case(SPLIT18, "lazy", 1, kb)
+    except Exception as e:  # noqa: BLE001
+        kf2 = {"fail": None}
+        ck.broken("correspondence", "C01 harness could not process the split18 probe", f"{type(e).__name__}: {e}")
+    stats["builds"] += 1
+    if kf2["fail"]:
+        ck.failure(kf2["fail"][0], kf2["fail"][1] + " [fixed probe: Split with explicit sizes at opset 18]",
+                   case_doc(SPLIT18, "lazy", 1, kb))
+
     ck.cov.update(
         {
             "programs": len(programs),
@@ -361,6 +400,7 @@ def run(ck: core.Check):
                 "nesting_depth_of_outputs": dict(hist_depth),
                 "emission_depth": dict(em_depth),
                 "styles": dict(hist_style),
+                "opset_versions": dict(hist_opset),
                 "emitted_nodes": stats["emitted_nodes"],
                 "emitted_graphs": stats["emitted_graphs"],
                 "unrequested_constructions": stats["unrequested_constructions"],
@@ -374,7 +414,8 @@ def run(ck: core.Check):
     ck.exhaustive = False
     ck.rule = (
         f"skeleton family: one closed value used in every subset of <= {skel_uses} of 6 nested graphs "
-        f"(main > If > Loop > If) x 2 shapes x styles {skel_styles}; + {n_random} seeded random programs "
+        f"(main > If > Loop > If) x 2 shapes x styles {skel_styles}; skeleton2: a value depending on the formals of a "
+        f"Loop / Scan body used in every subset of <= {ck.pick(2, 4)} of 8 graphs at 3 depths below that body; + {n_random} seeded random programs "
         f"(8-40 nodes, depth <= 4) x {n_styles} Python styles; {n_bind} random bindings each; "
         "non-trivial = has a body or a multi-output / optional-input operator; distinct by (dataflow structure, style)"
     )
